@@ -21,8 +21,9 @@ with ThreadPoolExecutor(max_workers=int(sys.argv[1]) if len(sys.argv) > 1 else 6
     for sid, checks, fired in ex.map(one, metas):
         if checks is None:
             print(sid, "obsolete (no longer breaks the property on the repaired tree)" if fired == ["obsolete"] else "no detector recorded"); continue
-        if not fired:
+        infra = bool(fired) and fired[0].startswith("INFRA:")
+        if not fired or infra:
             bad += 1
-        print(sid, "ok" if fired else "REGRESSION", checks, "->", fired, flush=True)
+        print(sid, "DOES-NOT-APPLY" if infra else ("ok" if fired else "REGRESSION"), checks, "->", fired, flush=True)
 print("regressions:", bad)
 sys.exit(1 if bad else 0)
